@@ -15,7 +15,7 @@
 (***************************************************************************)
 EXTENDS Integers, Sequences, FiniteSets, TLC, Json, TraceData
 
-VARIABLES token, last, assigned, refused, tid, l, bad
+VARIABLES token, roles, last, assigned, refused, tid, l, bad
 
 A == INSTANCE Auth WITH Conns <- TD_Conns, Keys <- TD_Keys, RolesOf <- TD_RolesOf, DefaultRoles <- TD_DefaultRoles,
                         ActionRoles <- TD_ActionRoles
@@ -27,52 +27,58 @@ TraceInit == tid \in DOMAIN Traces /\ l = 1 /\ bad = {} /\ A!Init /\ assigned = 
 
 With(f, k, v) == [x \in DOMAIN f \cup {k} |-> IF x = k THEN v ELSE f[x]]
 \* the recipe's output validator: the event's author or the authenticated reader is whitelisted, or it is a relay list
-OutOK(c, pk, kind) == pk \in TD_Whitelist \/ (token[c] # <<>> /\ token[c][1] \in TD_Whitelist) \/ kind = 10002
+OutOK(c, pk, kind) == pk \in TD_Whitelist \/ (token[c].st = "auth" /\ token[c].key \in TD_Whitelist) \/ kind = 10002
 
 TraceNext ==
     /\ l <= Len(Trace)
     /\ CASE Line.a = "Auth" ->
               \* (who: the identity the session was given, where the recorder can see it; else the signer is assumed and the
               \*  probes that follow show whose roles the connection really has)
-              /\ token' = IF Line.ok THEN [token EXCEPT ![Line.c] = <<IF "who" \in DOMAIN Line THEN Line.who ELSE Line.p.signer>>] ELSE token
+              /\ token' = IF Line.ok THEN [token EXCEPT ![Line.c] = A!Session(IF "who" \in DOMAIN Line THEN Line.who ELSE Line.p.signer,
+                                                                              IF "roles" \in DOMAIN Line THEN Line.roles ELSE roles[Line.p.signer])]
+                          ELSE token
+              /\ UNCHANGED roles
               /\ last' = [a |-> "auth", c |-> Line.c, p |-> Line.p, ok |-> Line.ok]
               /\ UNCHANGED <<assigned, refused>>
               /\ bad' = bad \cup {<<n, l>> : n \in (IF A!Auth(Line.c, Line.p, Line.ok) THEN {} ELSE {"Conform"}) \cup A!StepVerdict}
          [] Line.a = "Closed" ->
               \* the relay closed connection c (close code logged)
               /\ token' = [token EXCEPT ![Line.c] = A!Closed]
+              /\ UNCHANGED roles
               /\ last' = [a |-> "close", c |-> Line.c]
               /\ UNCHANGED <<assigned, refused>>
               /\ bad' = bad \cup {<<n, l>> : n \in A!StepVerdict}
          [] Line.a = "Probe" ->
-              /\ UNCHANGED <<token, assigned>>
+              /\ UNCHANGED <<token, roles, assigned>>
               /\ last' = [a |-> "probe", c |-> Line.c, action |-> Line.action, allowed |-> Line.allowed]
               \* a REQ that was refused ("restricted") must stay without any effect: remember its subscription id
               /\ refused' = IF Line.action = "query" /\ ~Line.allowed /\ "sid" \in DOMAIN Line THEN refused \cup {<<Line.c, Line.sid>>} ELSE refused
               /\ bad' = bad \cup {<<n, l>> : n \in A!StepVerdict}
          [] Line.a = "Push" ->
               \* an EVENT frame arrived on connection c under subscription id sid
-              /\ UNCHANGED <<token, last, assigned, refused>>
+              /\ UNCHANGED <<token, roles, last, assigned, refused>>
               /\ bad' = bad \cup {<<n, l>> : n \in IF <<Line.c, Line.sid>> \in refused THEN {"C14_RefusedReqHasNoEffect"} ELSE {}}
          [] Line.a = "CanDo" ->
-              /\ UNCHANGED <<token, last, assigned, refused>>
+              /\ UNCHANGED <<token, roles, last, assigned, refused>>
               /\ bad' = bad \cup {<<n, l>> : n \in
                      IF Line.allowed = ((IF Line.roles = <<>> THEN TD_DefaultRoles ELSE Line.roles[1]) \cap Line.cfg # {})
                      THEN {} ELSE {"C14_RoleCheck"}}
          [] Line.a = "SetRoles" ->
               /\ assigned' = With(assigned, Line.key, Line.roles)
+              \* (a key of the role matrix is also a key of Auth.tla: the assignment takes effect at its next AUTH)
+              /\ roles' = IF Line.key \in DOMAIN roles THEN [roles EXCEPT ![Line.key] = Line.roles] ELSE roles
               /\ UNCHANGED <<token, last, refused>> /\ bad' = bad
          [] Line.a = "GetRoles" ->
-              /\ UNCHANGED <<token, last, assigned, refused>>
+              /\ UNCHANGED <<token, roles, last, assigned, refused>>
               /\ bad' = bad \cup {<<n, l>> : n \in
                      IF Line.roles = (IF Line.key \in DOMAIN assigned THEN assigned[Line.key] ELSE TD_DefaultRoles)
                      THEN {} ELSE {"C14_RolesReadBack"}}
          [] Line.a = "Deliver" ->
-              /\ UNCHANGED <<token, last, assigned, refused>>
+              /\ UNCHANGED <<token, roles, last, assigned, refused>>
               /\ bad' = bad \cup {<<n, l>> : n \in IF OutOK(Line.c, Line.pk, Line.kind) THEN {} ELSE {"C14_OutputValidated"}}
     /\ l' = l + 1
     /\ tid' = tid
     /\ (l' > Len(Trace)) => PrintT("@@" \o ToJson([tid |-> tid, n |-> Len(Trace), bad |-> bad']))
 
-TraceSpec == TraceInit /\ [][TraceNext]_<<token, last, assigned, refused, tid, l, bad>>
+TraceSpec == TraceInit /\ [][TraceNext]_<<token, roles, last, assigned, refused, tid, l, bad>>
 =============================================================================
